@@ -7,4 +7,8 @@ mkdir -p out/bin evidence
 javac -cp /opt/veriftools/tla/tla2tools.jar:spec/real -d spec/real spec/java/BigNat.java spec/java/Crypto.java spec/java/Edwards.java
 cp /repo/go.sum harness/go.sum
 (cd harness && go build -tags verif -o ../out/bin/vdrive .)
+# accelerators = pure TLA+ definitions; the real-world instance reproduces the repository's known-answer vectors
+./check selftest > out/selftest.log 2>&1; rc=$?
+grep "^selftest" out/selftest.log
+[ $rc -eq 0 ] || { echo "selftest FAILED (see out/selftest.log)"; exit 1; }
 echo "setup ok"
